@@ -122,6 +122,20 @@ mod verif_probe_store_c09 {
                     Err(e) => failures.push(format!("{}: merge_owned with a destination-only class failed: {}", ctx, e)),
                 }
             }
+            // ---- every merge future reports ITS OWN merge (futures outstanding at the same time, read in the other order; a dropped future)
+            {
+                let mut sf: S = TrackStore::new(PMetric::default(), PAttrs::default(), NoopNotifier, shards);
+                let t = mk(&sf, 1, &[1.0]); sf.add_track(t).unwrap();
+                let missing = 1 + 4 * shards as u64; // same shard as id 1, not stored
+                let f_bad = sf.merge_external_noblock(missing, mk(&sf, 60, &[2.0]), None, false).unwrap();
+                let f_good = sf.merge_external_noblock(1, mk(&sf, 61, &[3.0]), None, false).unwrap();
+                let (r_good, r_bad) = (f_good.get(), f_bad.get());
+                if r_good.is_err() { failures.push(format!("{}: the future of a merge into the STORED track 1 reports {:?} (another merge into a missing track was outstanding)", ctx, r_good.as_ref().err().map(|e| e.to_string()))); }
+                if r_bad.is_ok() { failures.push(format!("{}: the future of a merge into the MISSING track {} reports Ok", ctx, missing)); }
+                drop(sf.merge_external_noblock(missing, mk(&sf, 62, &[4.0]), None, false).unwrap()); // response never collected
+                if let Err(e) = sf.merge_external(1, &mk(&sf, 63, &[5.0]), None, false) { failures.push(format!("{}: merge_external into the stored track 1 fails after an uncollected merge response: {}", ctx, e)); }
+                if sf.merge_external(missing, &mk(&sf, 64, &[6.0]), None, false).is_ok() { failures.push(format!("{}: merge_external into the missing track {} reports Ok after an uncollected merge response", ctx, missing)); }
+            }
             // ---- ids with bits above bit 31: found in shard id % shards, and merges reach them
             {
                 let mut sw: S = TrackStore::new(PMetric::default(), PAttrs::default(), NoopNotifier, shards);
